@@ -164,7 +164,7 @@ PROP_ELAB = {
     "C09": ["Props/C09s"],
     "C10": ["Props/C09s"],
     "C12": ["Proofs/BrandFlowLemmas", "Props/C12s"],
-    "C13": ["Proofs/WriteCapLemmas", "Props/C13"],
+    "C13": ["Proofs/WriteCapLemmas", "Proofs/WriteCapBridge", "Props/C13"],
     "C16": ["Proofs/CollectLemmas", "Props/C16"],
     "C19": ["Props/C19s"],
     "C03": ["Props/C03s"],
@@ -314,6 +314,9 @@ def lean_eval(cfg, prop, gen_dir, out_tag="main", elab=False):
                     res["info"][k] = v
     res["ok"] = True
     if elab:
+        # modules outside the tables engine (the collector model behind Proofs/WriteCapBridge) are
+        # taken pre-built from the Lean project; whatever was compiled here takes precedence
+        env = dict(env, LEAN_PATH=out_root + os.pathsep + os.path.join(cfg["lean"], ".lake", "build", "lib", "lean"))
         failing = []
         for rel in PROP_ELAB.get(prop, []):
             src = os.path.join(cfg["lean"], "GcArena", rel + ".lean")
